@@ -425,6 +425,15 @@ bool ZCK_PUBLIC_API zck_close(zckCtx *zck) {
             zck->temp_fd = 0;
         }
     } else {
+        /* A streamed chunk gets its verdict when the read after its last byte
+         * arrives: a reader that stopped exactly at the end of the data has
+         * been handed the last chunk unverified */
+        if(zck->comp.data_idx && zck->comp.data_idx->next == NULL &&
+           zck->comp.data_loc > 0 &&
+           zck->comp.data_loc == zck->comp.data_idx->comp_length &&
+           zck->check_chunk_hash.ctx != NULL &&
+           validate_current_chunk(zck) < 1)
+            return false;
         if(validate_file(zck, ZCK_LOG_WARNING) < 1)
             return false;
     }
